@@ -93,6 +93,18 @@ def run(ctx: Ctx):
         ctx.undecided("R11.a", pw.key("nesting"), "the nested Conditional(...) text is not built by the known loop over zip(conds, exprs); pairing and closing parentheses are not judged", pw.where())
     else:
         ctx.check(okpw, "R11.a", pw.key("nesting"), "nested Conditional(c, e, Conditional(...)) closed once per pair", "writer _print_Piecewise: pairs are not written as nested Conditional(c, e, ...) with the default as last argument", pw.where())
+    # every path through the method writes a Conditional(...): a path that returns something else (a bare condition
+    # for a 0/1 indicator, say) writes text the loader reads differently in some contexts
+    from .c03 import _branches as _brpw
+
+    pwv = _u11.value_of(ctx, pw)
+    odd = []
+    for _c, leaf in _brpw(pwv):
+        if leaf[0] == "raise" or _av11.has_unk(leaf):
+            continue
+        if not any("Conditional(" in t_ for t_ in _u11.strings_in(leaf)):
+            odd.append(leaf)
+    ctx.check(not odd, "R11.a", pw.key("always-conditional"), "every path writes Conditional(...)", f"writer _print_Piecewise returns `{_av11.show(odd[0])[:100] if odd else ''}` on some path, which is not a Conditional(...) text: a Piecewise saved in another form is not read back as the same Piecewise in every context", pw.where())
     printers.check_not_normalised(ctx, "R11.a")
 
     # reader side: generic function application uses every argument
